@@ -627,6 +627,31 @@ func runC02(t *testing.T, c *Case, o RunOpts) *Result {
 	return res
 }
 
+// hugeC02: a BED4 record with a 300 000-byte name between two small ones, a
+// BED12 record with 30 000 blocks (also written at width 6), and a GFF
+// feature with a 300 000-byte comment and a 300 000-byte attribute value.
+func hugeC02() []*Case {
+	long := strings.Repeat("n", 300000)
+	small := BedRec{Chrom: "c", Start: 1, End: 5, Name: "n", Sizes: []int{1}, Starts: []int{0}}
+	big := BedRec{Chrom: "c", Start: 1, End: 9, Name: long, Sizes: []int{1}, Starts: []int{0}}
+	blocks := BedRec{Chrom: "c", Start: 0, End: 100000, Name: "b"}
+	for i := 0; i < 30000; i++ {
+		blocks.Sizes = append(blocks.Sizes, 1+i%7)
+		blocks.Starts = append(blocks.Starts, 3*i)
+	}
+	d := simio.NoFault("block", 5)
+	mk := func(pl C02Plan) *Case { return &Case{Prop: "C02", Kind: pl.Format, Plan: marshalPlan(pl)} }
+	feat := GffItem{Kind: "feature", SeqName: "s", Source: "s", Feature: "f", Start: 1, End: 9, Frame: -1,
+		Attrs: []GffAttr{{"a", "x"}, {"big", long}}, Comments: long}
+	tail := GffItem{Kind: "feature", SeqName: "t", Source: "s", Feature: "f", Start: 1, End: 2, Frame: -1, NilAttrs: true}
+	return []*Case{
+		mk(C02Plan{Format: "bed", BedType: 12, WriteType: 4, Beds: []BedRec{small, big, small}, Delivery: d}),
+		mk(C02Plan{Format: "bed", BedType: 12, WriteType: 12, Beds: []BedRec{small, blocks, small}, Delivery: d}),
+		mk(C02Plan{Format: "bed", BedType: 12, WriteType: 6, Beds: []BedRec{blocks, small}, Delivery: d}),
+		mk(C02Plan{Format: "gff", Width: 60, Items: []GffItem{tail, feat, tail}, Delivery: d}),
+	}
+}
+
 func genPairC02(r *simrt.RNG) *Case {
 	var pp PairPlan
 	for n := r.Range(2, 3); n > 0; n-- {
@@ -731,6 +756,12 @@ func init() {
 	register(&Property{
 		ID: "C02",
 		Explore: func(t *testing.T, w *Worker, r *simrt.RNG) {
+			if w.unit == 0 {
+				// once per check: lines far longer than any plausible buffer
+				for _, h := range hugeC02() {
+					w.Report(h, runC02(t, h, RunOpts{}))
+				}
+			}
 			if r.Intn(12) == 0 {
 				c := genPairC02(r)
 				w.Report(c, runPair(t, c, RunOpts{}))
